@@ -1,6 +1,115 @@
 ----------------------------- MODULE CelDuration -----------------------------
+(***************************************************************************)
+(* Durations: Go's duration syntax and canonical rendering, on exact       *)
+(* nanosecond counts (BigInt).                                             *)
+(*   DurationString == [-+]? ( "0" | (Number Unit)+ )                      *)
+(*   Number == digits | digits "." digits? | "." digits                    *)
+(*   Unit   == "ns" | "us" | "µs" | "μs" | "ms" | "s" | "m" | "h"          *)
+(* Everything else -- text left over, a missing unit, exponents, inf, nan, *)
+(* spaces, the empty string -- is not a duration.                          *)
+(***************************************************************************)
 EXTENDS Naturals, Integers, Sequences, FiniteSets, CelValue
+LOCAL N  == INSTANCE BigNat
 LOCAL Z  == INSTANCE BigInt
-\* placeholder until the duration grammar is specified (C15): outcome not pinned
-DurationFn(v) == D(R(VDur(Z!Zero)))
+LOCAL NM == INSTANCE Num64
+
+IsDigit(c) == c >= 48 /\ c <= 57
+\* length of the run of digits starting at position i
+RECURSIVE DigitRun(_, _)
+DigitRun(cp, i) == IF i <= Len(cp) /\ IsDigit(cp[i]) THEN 1 + DigitRun(cp, i + 1) ELSE 0
+Digits(cp, i, n) == [k \in 1..n |-> cp[i + k - 1] - 48]
+
+Nano == N!FromNat(1)
+Micro == N!FromNat(1000)
+Milli == N!FromNat(1000000)
+Sec == N!FromNat(1000000000)
+Min == N!MulLimb(Sec, 60)
+Hour == N!MulLimb(Min, 60)
+
+\* unit at position i: [ok, len, ns]
+UnitAt(cp, i) ==
+  LET c1 == IF i <= Len(cp) THEN cp[i] ELSE 0
+      c2 == IF i + 1 <= Len(cp) THEN cp[i + 1] ELSE 0
+  IN  IF c1 = 110 /\ c2 = 115 THEN [ok |-> TRUE, len |-> 2, ns |-> Nano]                    \* ns
+      ELSE IF c1 \in {117, 181, 956} /\ c2 = 115 THEN [ok |-> TRUE, len |-> 2, ns |-> Micro, micro |-> c1] \* us, µs (U+00B5), μs (U+03BC)
+      ELSE IF c1 = 109 /\ c2 = 115 THEN [ok |-> TRUE, len |-> 2, ns |-> Milli]              \* ms
+      ELSE IF c1 = 115 THEN [ok |-> TRUE, len |-> 1, ns |-> Sec]
+      ELSE IF c1 = 109 THEN [ok |-> TRUE, len |-> 1, ns |-> Min]
+      ELSE IF c1 = 104 THEN [ok |-> TRUE, len |-> 1, ns |-> Hour]
+      ELSE [ok |-> FALSE]
+
+\* Terms from position i.  The exact value of the string is num / 10^scale nanoseconds, where each
+\* term contributes (int*10^f + frac) * unit * 10^(scale - f) ... to keep it simple every term is
+\* scaled to SCALE = 10^20 (fractions longer than 20 digits are outside the model: [ok |-> FALSE, long |-> TRUE]).
+SCALE == 20
+Pow10(k) == N!FromDigits([i \in 1..(k + 1) |-> IF i = 1 THEN 1 ELSE 0], 10)
+RECURSIVE Terms(_, _, _, _)
+Terms(cp, i, acc, count) ==
+  IF i > Len(cp) THEN (IF count = 0 THEN [ok |-> FALSE, long |-> FALSE] ELSE [ok |-> TRUE, num |-> acc, count |-> count])
+  ELSE LET ni == DigitRun(cp, i)
+           hasDot == i + ni <= Len(cp) /\ cp[i + ni] = 46
+           nf == IF hasDot THEN DigitRun(cp, i + ni + 1) ELSE 0
+           j == i + ni + (IF hasDot THEN 1 + nf ELSE 0)
+           u == UnitAt(cp, j)
+       IN  IF ni + nf = 0 \/ ~u.ok THEN [ok |-> FALSE, long |-> FALSE]
+           ELSE IF nf > SCALE \/ ni > 30 THEN [ok |-> FALSE, long |-> TRUE]
+           ELSE LET ip == N!FromDigits(Digits(cp, i, ni), 10)
+                    fp == IF nf = 0 THEN << >> ELSE N!FromDigits(Digits(cp, i + ni + 1, nf), 10)
+                    \* (ip + fp / 10^nf) * unit, scaled by 10^SCALE
+                    scaled == N!Add(N!Mul(N!Mul(ip, u.ns), Pow10(SCALE)), N!Mul(N!Mul(fp, u.ns), Pow10(SCALE - nf)))
+                IN  Terms(cp, j + u.len, N!Add(acc, scaled), count + 1)
+
+\* [ok, neg, num (exact value * 10^SCALE), count, plus, bare0] | [ok |-> FALSE, long]
+Parse(cp) ==
+  IF cp = << >> THEN [ok |-> FALSE, long |-> FALSE]
+  ELSE LET signed == cp[1] \in {43, 45}
+           body == IF signed THEN Tail(cp) ELSE cp
+       IN  IF body = << 48 >> THEN [ok |-> TRUE, neg |-> FALSE, num |-> << >>, count |-> 1, plus |-> signed /\ cp[1] = 43, bare0 |-> TRUE, micro |-> FALSE]
+           ELSE LET t == Terms(body, 1, << >>, 0) IN
+                IF ~t.ok THEN t
+                ELSE [ok |-> TRUE, neg |-> signed /\ cp[1] = 45, num |-> t.num, count |-> t.count, plus |-> signed /\ cp[1] = 43, bare0 |-> FALSE,
+                      micro |-> \E k \in 1..Len(body) : body[k] \in {181, 956}]
+
+\* duration(string): exact nanoseconds when the string denotes a whole number of them; a
+\* sub-nanosecond remainder may be truncated or rounded (per term): any count within `count` of the exact value
+DurationFn(v) ==
+  IF v.t # "str" THEN E({"type", "fnerr"})
+  ELSE LET p == Parse(v.cp) IN
+       IF ~p.ok THEN (IF p.long THEN D(E({"fnerr"})) ELSE E({"fnerr", "overflow"}))
+       ELSE LET dm == N!DivMod(p.num, Pow10(SCALE))
+                n == Z!Z(IF p.neg THEN -1 ELSE 1, dm[1])
+                exact == N!IsZero(dm[2])
+                r == IF ~NM!InI64(n) THEN (IF NM!InI64(Z!Add(n, Z!FromInt(p.count))) \/ NM!InI64(Z!Sub(n, Z!FromInt(p.count))) THEN D(E({"fnerr", "overflow"})) ELSE E({"fnerr", "overflow"}))
+                     ELSE IF exact THEN R(VDur(n))
+                     ELSE D(R(VDur(n)))          \* sub-nanosecond input: truncation or rounding
+            IN  IF p.plus \/ p.bare0 \/ (p.micro /\ FALSE) THEN D(r) ELSE r      \* a leading '+' and the bare "0" are accepted either way
+
+\* Go's Duration.String
+DigitCp(ds) == [i \in 1..Len(ds) |-> 48 + ds[i]]
+\* fraction digits of `frac` (< 10^prec) printed with exactly prec digits, trailing zeros trimmed, with the leading "."
+RECURSIVE TrimZeros(_)
+TrimZeros(ds) == IF ds # << >> /\ ds[Len(ds)] = 0 THEN TrimZeros(SubSeq(ds, 1, Len(ds) - 1)) ELSE ds
+PadTo(ds, n) == [i \in 1..(n - Len(ds)) |-> 0] \o ds
+FracText(frac, prec) ==
+  LET ds == TrimZeros(PadTo(IF N!IsZero(frac) THEN << >> ELSE N!ToDigits(frac), prec))
+  IN  IF ds = << >> THEN << >> ELSE << 46 >> \o DigitCp(ds)
+NatText(n) == DigitCp(N!ToDigits(n))
+
+Format(ns) ==
+  LET u == ns.m
+      sign == IF ns.s < 0 THEN << 45 >> ELSE << >>
+  IN  IF N!IsZero(u) THEN << 48, 115 >>                                     \* "0s"
+      ELSE IF N!Lt(u, Micro) THEN sign \o NatText(u) \o << 110, 115 >>      \* ns
+      ELSE IF N!Lt(u, Milli) THEN LET dm == N!DivMod(u, Micro) IN sign \o NatText(dm[1]) \o FracText(dm[2], 3) \o << 181, 115 >>     \* µs
+      ELSE IF N!Lt(u, Sec)   THEN LET dm == N!DivMod(u, Milli) IN sign \o NatText(dm[1]) \o FracText(dm[2], 6) \o << 109, 115 >>     \* ms
+      ELSE LET sdm == N!DivMod(u, Sec)                   \* whole seconds, nanosecond fraction
+               mdm == N!DivMod(sdm[1], << 60 >>)         \* whole minutes, seconds
+               hdm == N!DivMod(mdm[1], << 60 >>)         \* hours, minutes
+               secs == NatText(mdm[2]) \o FracText(sdm[2], 9) \o << 115 >>
+           IN  IF N!IsZero(mdm[1]) THEN sign \o secs
+               ELSE IF N!IsZero(hdm[1]) THEN sign \o NatText(hdm[2]) \o << 109 >> \o secs
+               ELSE sign \o NatText(hdm[1]) \o << 104 >> \o NatText(hdm[2]) \o << 109 >> \o secs
+
+\* string(duration)
+ToStringDur(v) == IF NM!InI64(v.n) THEN R(VStr(Format(v.n))) ELSE D(R(VStr(Format(v.n))))
 =============================================================================
